@@ -106,7 +106,7 @@ def eval_clause(txt, env, old_env=None, glob=None):
     ns["__old__"] = __old__
     try:
         return eval(compile_clause(txt), ns)
-    except (IndexError, RecursionError, ZeroDivisionError, AttributeError, TypeError, KeyError, NameError) as e:
+    except (IndexError, RecursionError, ZeroDivisionError, AttributeError, TypeError, KeyError, NameError, NotImplementedError) as e:
         raise Undefined(f"{type(e).__name__}: {e}")
 
 
@@ -204,7 +204,10 @@ def check_call(key, contract, fn, args, kwargs, violations, counts, param_names)
                     pass
         env2 = dict(env)
         env2["exc"] = e
-        for cl in contract.on_raise:
+        orc = contract.on_raise
+        if isinstance(orc, dict):
+            orc = list(orc.get("*", [])) + [cl for k_, v_ in orc.items() if k_ != "*" and exc_matches(e, k_) for cl in v_]
+        for cl in orc:
             try:
                 if not eval_clause(cl, env2, old_env, G):
                     violations.append({"function": key, "kind": "on-raise", "clause": cl, "inputs": describe(), "detail": f"{type(e).__name__}: {e}"})
